@@ -188,13 +188,24 @@ def discard_case(ch, r, client):
         lead += ch.pick([wire.ping(ch.bytes(8)), wire.settings([(3, ch.int(1, 9))]), wire.settings()])
     if lead:
         r.labels.add('discard-answers-queued-in-the-same-call')
+    tail = b''
+    if ch.chance(80):
+        # a frame behind the GOAWAY in the same call: it is an error on the closed connection, which may add one
+        # GOAWAY of ours - and nothing of what the peer's GOAWAY has discarded
+        tail = ch.pick([wire.ping(ch.bytes(8)), wire.window_update(0, 0), wire.data(1, b'x'), wire.settings()])
+        r.labels.add('frame-behind-the-goaway-in-the-same-call')
     try:
-        evs = c.receive_data(lead + wire.goaway(0, ch.pick([0, 2])))
+        evs = c.receive_data(lead + wire.goaway(0, ch.pick([0, 2])) + tail)
     except Exception as e:   # noqa: BLE001
-        r.violate('C19:goaway-rejected:%s' % type(e).__name__, repr(e))
-        return r
+        if not tail or not isinstance(e, h2.exceptions.ProtocolError):
+            r.violate('C19:goaway-rejected:%s' % type(e).__name__, repr(e))
+            return r
     left = c.data_to_send()
-    if left:
+    if tail:
+        extra = [f for f in wire.parse_all(left)[0]]
+        if len(extra) > 1 or any(f.type != wire.GOAWAY for f in extra):
+            r.violate('C19:pending-output-not-discarded-by-goaway', repr(extra)[:160])
+    elif left:
         r.violate('C19:pending-output-not-discarded-by-goaway', left.hex()[:60])
     r.nontrivial = pending > 0
     r.labels.add('discard')
